@@ -26,14 +26,14 @@ class AttrDict(dict):
             value = AttrDict(value)
         super(AttrDict, self).__setitem__(key, value)
 
-    def __getitem__(self, key):
-        found = self.get(key, AttrDict.MARKER)
-        if found is AttrDict.MARKER:
-            found = AttrDict()
-            super(AttrDict, self).__setitem__(key, found)
-        return found
+    def __getattr__(self, key):
+        # Looking a missing key up must not insert it (the table is global state)
+        try:
+            return self[key]
+        except KeyError as err:
+            raise AttributeError(key) from err
 
-    __setattr__, __getattr__ = __setitem__, __getitem__
+    __setattr__ = __setitem__
 
 
 with open(os.path.join(HERE, "attributes.yml")) as stream:
